@@ -107,4 +107,27 @@ def doseFilter (o : Ops α) (g : GG α) (fft : FFT Img α H W) (px : α) (stack 
   else some (List.zipWith (fun image dose => doseFilterSingle o g fft px dose image) stack doses)
 end filter
 
+/-! ### integer-typed stacks — the code AS IT IS (open finding C16-K1)
+
+`TiltStack` keeps the dtype of the caller's stack, and `dose_filter` writes every filtered (float) image back into that
+array (`ts.data[z, :, :] = dose_filter_single_image(...)`).  For an integer-typed stack numpy converts on that assignment by
+truncation toward zero; on the way in, `np.fft.fft2(image)` converts every integer pixel to a float.  `correct_order` then finds
+the dtype unchanged and returns the integer array. -/
+
+/-- the two conversions numpy performs around an integer array -/
+structure IntIO (Img IntImg : Type) where
+  /-- integer pixels read as floats (`np.fft.fft2` of an integer image) -/
+  ofInt : IntImg → Img
+  /-- float image assigned into the integer array: every pixel truncated toward zero -/
+  trunc : Img → IntImg
+
+section intstack
+variable [Add α] [Mul α] [Div α] [Neg α] {Img IntImg : Type} {H W : Nat}
+
+/-- `dose_filter` on an integer-typed stack: each image is converted, filtered with its dose, and truncated back -/
+def doseFilterInt (o : Ops α) (g : GG α) (fft : FFT Img α H W) (io : IntIO Img IntImg) (px : α)
+    (stack : List IntImg) (doses : List α) : Option (List IntImg) :=
+  (doseFilter o g fft px (stack.map io.ofInt) doses).map (fun out => out.map io.trunc)
+end intstack
+
 end CryoCat.C16
